@@ -55,6 +55,62 @@ Proof.
   cbn [app] in X. now rewrite app_nil_r in X.
 Qed.
 
+(* ---------- strings.TrimSpace (Unicode aware) on ASCII-delimited text ---------- *)
+
+(* an ASCII byte that is not white space: no space rune starts or ends with it *)
+Definition anp (b : byte) : bool := negb (is_space b) && (bN b <? 128)%N.
+Definition nanp (b : byte) : bool := negb (anp b).
+
+Lemma anp_head b r : anp b = true -> space_head (b :: r) = 0.
+Proof. destruct b; intros H; try discriminate H; vm_compute; reflexivity. Qed.
+Lemma anp_tail b r : anp b = true -> space_tail (b :: r) = 0.
+Proof. destruct b; intros H; try discriminate H; vm_compute; reflexivity. Qed.
+Lemma tchar_anp b : is_tchar b = true -> anp b = true.
+Proof. destruct b; vm_compute; congruence. Qed.
+
+Lemma strip_pad heads pre s : forall fuel,
+  (forall b r, is_space b = true -> heads (b :: r) = 1) -> heads s = 0 ->
+  forallb is_space pre = true -> length pre <= fuel ->
+  strip_spaces heads fuel (pre ++ s) = s.
+Proof.
+  induction pre as [|b r IH]; intros fuel Hh Hs Hp Hl.
+  - cbn [app]. destruct fuel; [reflexivity|]. cbn [strip_spaces]. rewrite Hs. reflexivity.
+  - cbn [forallb] in Hp. apply andb_prop in Hp as [Hb Hr].
+    destruct fuel as [|fuel]; [cbn in Hl; lia|]. cbn [app strip_spaces]. rewrite (Hh b _ Hb).
+    cbn [skipn]. apply IH; auto. cbn in Hl. lia.
+Qed.
+
+Lemma space_head_ascii b r : is_space b = true -> space_head (b :: r) = 1.
+Proof. intros H. unfold space_head. now rewrite H. Qed.
+Lemma space_tail_ascii b r : is_space b = true -> space_tail (b :: r) = 1.
+Proof. intros H. unfold space_tail. now rewrite H. Qed.
+
+Lemma trim_space_pad pre s post :
+  forallb is_space pre = true -> forallb is_space post = true ->
+  starts_np nanp s -> ends_np nanp s ->
+  trim_space (pre ++ s ++ post) = s.
+Proof.
+  intros Hpre Hpost Hs [a [b [-> Hb]]]. unfold trim_space.
+  assert (Ab : anp b = true) by (unfold nanp in Hb; now apply negb_false_iff in Hb).
+  rewrite (strip_pad space_head pre ((a ++ [b]) ++ post)); auto using space_head_ascii.
+  2:{ destruct a as [|a0 a']; cbn [app].
+      - now apply anp_head.
+      - cbn in Hs. unfold nanp in Hs. apply negb_false_iff in Hs. now apply anp_head. }
+  2:{ rewrite app_length. lia. }
+  rewrite rev_app_distr. rewrite (strip_pad space_tail (rev post) (rev (a ++ [b]))); auto using space_tail_ascii.
+  - apply rev_involutive.
+  - rewrite rev_app_distr. cbn [rev app]. now apply anp_tail.
+  - now rewrite forallb_rev.
+  - rewrite rev_length, !app_length. lia.
+Qed.
+
+Lemma anp_not_space b : nanp b = false -> is_space b = false.
+Proof. unfold nanp, anp. destruct (is_space b); [cbn; discriminate|reflexivity]. Qed.
+Lemma starts_nanp_space s : starts_np nanp s -> starts_np is_space s.
+Proof. destruct s; cbn; [auto|apply anp_not_space]. Qed.
+Lemma ends_nanp_space s : ends_np nanp s -> ends_np is_space s.
+Proof. intros [a [b [E H]]]. exists a, b. split; [exact E|now apply anp_not_space]. Qed.
+
 Lemma forallb_weaken (p q : byte -> bool) l :
   (forall b, p b = true -> q b = true) -> forallb p l = true -> forallb q l = true.
 Proof.
@@ -164,11 +220,11 @@ Qed.
 
 (* ---------- one parameter ---------- *)
 
-Lemma render_field_starts f : cfield_ok f = true -> starts_np is_space (render_field f).
+Lemma render_field_starts f : cfield_ok f = true -> starts_np nanp (render_field f).
 Proof.
   unfold cfield_ok. intros H. apply andb_prop in H as [Hk _]. rewrite render_field_shape.
   destruct (fst f) as [|b r]; [discriminate|]. cbn [tokenb forallb] in Hk. apply andb_prop in Hk as [Hb _].
-  cbn. now apply tchar_not_space.
+  cbn. unfold nanp. now rewrite (tchar_anp b Hb).
 Qed.
 
 Lemma token_ends v : tokenb v = true -> exists a b, v = a ++ [b] /\ is_tchar b = true.
@@ -179,7 +235,7 @@ Proof.
   apply andb_prop in H as [_ H]. cbn in H. now rewrite andb_true_r in H.
 Qed.
 
-Lemma render_field_ends f : cfield_ok f = true -> ends_np is_space (render_field f).
+Lemma render_field_ends f : cfield_ok f = true -> ends_np nanp (render_field f).
 Proof.
   unfold cfield_ok. intros H. apply andb_prop in H as [_ Hv]. rewrite render_field_shape.
   destruct (snd f) as [x|x|x].
@@ -188,7 +244,7 @@ Proof.
   - exists (fst f ++ equals :: dquote :: x), dquote. split; [|reflexivity].
     rewrite <- app_assoc. reflexivity.
   - destruct (token_ends x Hv) as [a [b [-> Hb]]]. exists (fst f ++ equals :: a), b.
-    split; [rewrite <- app_assoc; reflexivity|now apply tchar_not_space].
+    split; [rewrite <- app_assoc; reflexivity|unfold nanp; now rewrite (tchar_anp b Hb)].
 Qed.
 
 Lemma unquote_token v : tokenb v = true -> unquote_param v = v.
@@ -220,7 +276,7 @@ Proof.
   intros Hok. pose proof Hok as Hok'. unfold piece_ok in Hok. apply andb_prop in Hok as [Hok Hf].
   apply andb_prop in Hok as [Hl Ht]. destruct x as [[l f] t]. cbn [fst snd] in *.
   unfold parse_param, render_piece, padded_sem. cbn [fst snd].
-  unfold trim_space. rewrite (trim_pad is_space l (render_field f) t Hl Ht (render_field_starts f Hf) (render_field_ends f Hf)).
+  rewrite (trim_space_pad l (render_field f) t Hl Ht (render_field_starts f Hf) (render_field_ends f Hf)).
   unfold cfield_ok in Hf. apply andb_prop in Hf as [Hk Hv].
   rewrite render_field_shape. rewrite (cut_eq_field _ _ Hk).
   set (raw := match snd f with
@@ -282,14 +338,14 @@ Proof.
   intros Hok [Hfirst [ys [y [E Hy]]]]. split.
   - destruct xs as [|x r]; [contradiction|]. cbn [forallb] in Hok. apply andb_prop in Hok as [Hx _].
     unfold piece_ok in Hx. apply andb_prop in Hx as [_ Hf].
-    pose proof (render_field_starts _ Hf) as S.
+    pose proof (starts_nanp_space _ (render_field_starts _ Hf)) as S.
     assert (S' : starts_np is_space (render_piece x)).
     { unfold render_piece. rewrite Hfirst. cbn [app]. destruct (render_field (snd (fst x))); [contradiction|exact S]. }
     destruct r as [|z r']; cbn [map join_with]; [exact S'|].
     destruct (render_piece x); [contradiction|exact S'].
   - subst xs. rewrite forallb_app in Hok. apply andb_prop in Hok as [_ Hy']. cbn [forallb] in Hy'.
     rewrite andb_true_r in Hy'. unfold piece_ok in Hy'. apply andb_prop in Hy' as [_ Hf].
-    destruct (render_field_ends _ Hf) as [a [b [Ea Hb]]].
+    destruct (ends_nanp_space _ (render_field_ends _ Hf)) as [a [b [Ea Hb]]].
     destruct (join_last [comma] render_piece ys y) as [pre Ep]. rewrite Ep.
     unfold render_piece. rewrite Hy, app_nil_r, Ea. exists (pre ++ fst (fst y) ++ a), b.
     split; [rewrite <- !app_assoc; reflexivity|exact Hb].
